@@ -57,6 +57,29 @@ def replay(recs):
                 ([("Rectangle", g.Rectangle)] if n == 4 and is_rect(r["poly"]) else [])
             for cname, cls in classes:
                 chk(f"{cname}.area/{dim}D", st, case, area, lambda: cls(*verts).area, lambda v: close(v, area))
+            # the vertex list reversed / rotated through indexing the object itself (p[::-1], np.roll of its rows), and the
+            # same for its edges (e[::-1], edges[:, ::-1]): the same measures
+            def via_index():
+                P0 = g.Polygon(*verts)
+                try:
+                    R = P0[::-1]
+                except g.exceptions.LinearDependenceError:
+                    if dim != 3:
+                        raise
+                    R = P0      # three collinear leading vertices do not span the plane of a polygon of 3-space (constructor limit)
+                e = P0.edges
+                e0 = e[0]
+                vals = [float(np.real(R.area)), bool(R == P0), type(R).__name__,
+                        same_class(e0[::-1].midpoint.array, e0.midpoint.array), float(abs(e0[::-1].length - e0.length)),
+                        all(same_class(a, b) for a, b in zip(np.asarray(e[:, ::-1].midpoint.array), np.asarray(e.midpoint.array))),
+                        float(np.max(np.abs(np.asarray(e[:, ::-1].length) - np.asarray(e.length)))),
+                        bool(e0[::-1].contains(e0.midpoint)), bool(np.all(e[:, ::-1].contains(e.midpoint)))]
+                if dim == 2:
+                    vals.append(same_class(R.centroid.array, P0.centroid.array))
+                return vals
+            chk(f"Polygon[::-1] / Segment[::-1]/{dim}D", st, case, "the measures of the polygon and of its edges",
+                via_index, lambda v: close(v[0], area) and v[1] is True and v[3] is True and v[4] < 1e-9 and v[5] is True and v[6] < 1e-9
+                and v[7] is True and v[8] is True and (len(v) < 10 or v[9] is True))
             # invariance under isometries, on an object that has already been measured (everything it may memorise is filled)
             from ..moved import motions, warm
             for mname, mv, T, Ti in motions(dim):
